@@ -1,5 +1,7 @@
 (* C01 -- reliable data channels deliver every message exactly once, intact, in order.
-   Property theorems only; proofs in Proof/SctpRecvP.v, SctpC01P.v, SctpSendP.v, SctpDupP.v.
+   Property theorems only; proofs in Proof/SctpRecvP.v, SctpC01P.v, SctpSendP.v, SctpDupP.v,
+   SctpOrderP.v (stream automaton), SctpOrderSP.v (sender numbering), SctpOrderTP.v
+   (transport), SctpOrderEP.v (end to end).
 
    Network abstraction: loss, duplication, reordering and delay of DATA packets are
    subsumed by "the receiver sees an ARBITRARY list of events each of which is one of
@@ -8,7 +10,8 @@
    a prefix of such a list is such a list. *)
 From Coq Require Import ZArith List Bool.
 From AV Require Import Lib.Bytes Gen.Utils Gen.SctpConst Model.SctpRecv Model.SctpSend
-  Proof.SctpRecvP Proof.SctpC01P Proof.SctpSendP Proof.SctpDupP.
+  Proof.SctpRecvP Proof.SctpC01P Proof.SctpSendP Proof.SctpDupP Proof.SctpOrderP Proof.SctpOrderSP
+  Proof.SctpOrderTP Proof.SctpOrderEP.
 Import ListNotations.
 Local Open Scope Z_scope.
 
@@ -76,13 +79,44 @@ Theorem C01_app_roundtrip : forall v,
 Proof. intros v. exact (conj (app_roundtrip v) (conj (app_encode_nonempty v) ppids_distinct)). Qed.
 Print Assumptions C01_app_roundtrip.
 
-(* PARTIAL: the order / exactly-once sentence of the property ("per ordered channel the
-   deliveries are a prefix of the sends; per unordered channel a duplicate-free
-   sub-multiset") is proved here only up to its two ingredients -- (2) every delivery
-   is a sent message of that stream and (3) no TSN is accepted twice, so no chunk can
-   take part in two deliveries.  The remaining step (delivered stream sequence numbers
-   are consecutive from 0) is not yet a theorem; it is exercised by the oracle on the
-   receiver-level arrival lists and on two-endpoint fault schedules. *)
+(* 5. Ordered, exactly-once delivery.  The application sends ANY list of messages (any
+   sizes, streams, ordered or not, any ppid) from ANY initial TSN (wrap included); the
+   network hands the receiver ANY list of DATA chunks inside the TSN window in which the
+   chunks of stream st are chunks of st's ordered messages -- every order, loss and
+   duplication pattern.  Then the messages delivered on stream st are EXACTLY the first n
+   ordered messages sent on st (stream, ppid, data), in sending order, each once.
+   `swin` is the 16-bit stream-sequence window: every chunk arrives while fewer than
+   2^15 messages of its stream separate it from the delivery point; theorem 6 shows it
+   holds outright for a stream that carries fewer than 2^15 ordered messages.  (Beyond
+   that window SCTP's 16-bit SSN comparison is inherently ambiguous, RFC 4960 6.5.) *)
+Theorem C01_ordered_exactly_once : forall base N t0 msgs st es,
+  r32 base -> 0 <= N < 2147483648 -> r32 t0 ->
+  off base t0 + Z.of_nat (total_frags msgs) <= N ->
+  Forall (fun m => o_data m <> []) msgs ->
+  let M := sel st (mkS t0 []) msgs in
+  Forall (data_ev base N) es ->
+  (forall c, In (EvData c) es -> sid c = st -> In c (concat M)) ->
+  swin M [] 0 0 (filter (on_stream st) (accepted_chunks (rinit base) es)) ->
+  exists n, msgs_on st (rinit base) es = firstn n (map triple (filter (selected st) msgs)).
+Proof. exact ordered_exactly_once. Qed.
+Print Assumptions C01_ordered_exactly_once.
+
+(* 6. The stream-sequence window condition of theorem 5 is met by every arrival list when
+   the stream carries at most 2^15 ordered messages. *)
+Theorem C01_window_small : forall base N t0 msgs st,
+  r32 base -> 0 <= N < 2147483648 -> r32 t0 ->
+  off base t0 + Z.of_nat (total_frags msgs) <= N ->
+  Forall (fun m => o_data m <> []) msgs ->
+  let M := sel st (mkS t0 []) msgs in
+  Z.of_nat (length M) <= 32768 ->
+  forall cs Q seq k, swin M Q seq k cs.
+Proof. exact window_small. Qed.
+Print Assumptions C01_window_small.
+
+(* Still PARTIAL: unordered channels ("a duplicate-free sub-multiset of the sends") are
+   covered by theorems 2 and 3 only; the two-endpoint statement "every message IS
+   eventually delivered once the network heals" is liveness of the retransmission
+   machinery and is observed by the scenario oracle (and bounded by C02's theorems). *)
 
 (* non-vacuity: a 3-fragment message near the TSN wrap, delivered from a shuffled,
    duplicated arrival list *)
@@ -95,3 +129,16 @@ Example C01_example :
 Proof.
   cbv zeta. split; [reflexivity|]. eexists _, _, _. split; [reflexivity|]. vm_compute. reflexivity.
 Qed.
+
+(* non-vacuity of theorem 5: three ordered messages on stream 1 (the second has two
+   fragments) interleaved with a message on stream 2, TSNs wrapping; the chunks arrive
+   reversed with duplicates: all three are delivered in sending order; when the first
+   fragment of the second message is lost, exactly the prefix [first message] comes out *)
+Example C01_ordered_example :
+  let msgs := [mkOut 1 true 53 [1; 2]; mkOut 2 true 53 [7]; mkOut 1 true 53 (repeat 7 1201); mkOut 1 true 51 [9]] in
+  let cs := concat (send_msgs (mkS 4294967295 []) msgs) in
+  map tsn cs = [4294967295; 0; 1; 2; 3] /\
+  msgs_on 1 (rinit 4294967294) (map EvData (rev cs ++ cs)) = [(1, 53, [1; 2]); (1, 53, repeat 7 1201); (1, 51, [9])] /\
+  msgs_on 1 (rinit 4294967294) (map EvData (rev (skipn 3 cs) ++ firstn 2 cs)) = [(1, 53, [1; 2])].
+Proof. vm_compute. repeat split; reflexivity. Qed.
+
